@@ -335,28 +335,31 @@ def endStream (s : Strm) : List Out × Bool :=
     let d := if s.st ≠ .hcLocal then [Out.data s.id 0 true] else []
     if s.st ≠ .hcRemote then (d ++ [.rst s.id 0], true) else (d, false)
 
+/-- DATA bytes h2_send_cqdata() frames for this stream in its turn -/
+def turnAmount (cswin : Int) (budget : Nat) (s : Strm) : Nat :=
+  if s.pending = 0 ∨ budget = 0 then 0
+  else sendAmount s.swin cswin s.pending (min (if s.incremental then 8192 else 32750) budget)
+
+/-- response HEADERS of a stream (h2_send_headers): END_STREAM on HEADERS iff there is no body -/
+def sendHdrs (s : Strm) : Strm × List Out :=
+  if s.headersSent then (s, [])
+  else
+    ({ s with headersSent := true,
+              st := if s.pending = 0 then (if s.st = .open then StSt.hcLocal
+                                           else if s.st = .hcRemote then .closed else s.st)
+                    else s.st },
+     [Out.headers s.id s.status (s.pending = 0)])
+
 /-- one stream's turn in a pass; returns (stream or none if retired, frames, bytes sent, hcRecent) -/
 def strmTurn (cswin : Int) (budget : Nat) (s : Strm) : Option Strm × List Out × Nat × Bool :=
-  if s.err then
-    let (o, h) := endStream s
-    (none, o, 0, h)
+  if s.err then (none, (endStream s).1, 0, (endStream s).2)
   else
-    -- response headers (status line etc.); END_STREAM on HEADERS iff there is no body
-    let (s, oh) :=
-      if s.headersSent then (s, [])
-      else
-        let es := s.pending = 0
-        let st' := if es then (if s.st = .open then StSt.hcLocal else if s.st = .hcRemote then .closed else s.st)
-                   else s.st
-        ({ s with headersSent := true, st := st' }, [Out.headers s.id s.status es])
-    let n := if s.pending = 0 ∨ budget = 0 then 0
-             else sendAmount s.swin cswin s.pending (min (if s.incremental then 8192 else 32750) budget)
-    let s := { s with swin := s.swin - n, pending := s.pending - n }
+    let n := turnAmount cswin budget s
+    let s1 : Strm := { (sendHdrs s).1 with swin := s.swin - n, pending := s.pending - n }
     let od := if n = 0 then [] else [Out.data s.id n false]
-    if s.pending = 0 then
-      let (oe, h) := endStream s
-      (none, oh ++ od ++ oe, n, h)
-    else (some s, oh ++ od, n, false)
+    if s.pending - n = 0 then
+      (none, (sendHdrs s).2 ++ od ++ (endStream s1).1, n, (endStream s1).2)
+    else (some s1, (sendHdrs s).2 ++ od, n, false)
 
 structure PassOut where
   streams : List Strm
